@@ -87,7 +87,7 @@ def check(ctx):
     ok = len(fresh) == 1 and Pat("uuid.uuid4().bytes").match(fresh[0][1]["M_v"]) is not None
     if ok:
         raw = cfg_of(bind).facts(fresh[0][0])
-        ok = any(unparse(e) == "seed is None" and pol for e, pol in raw)
+        ok = any(eqv(e, "seed is None") and pol for e, pol in raw)
     ctx.ob("SEED.fresh", bind, "bind: seed = uuid4 bytes only when seed is None", ok, "" if ok else "a given seed is replaced, or unseeded clones share one seed")
     bo = calls(bind, "_bind_one")
     ok = len(bo) == 1
@@ -95,7 +95,7 @@ def check(ctx):
         b = bind_call(bo[0], bind_one)
         ok = all(k in b and unparse(b[k]) == v for k, v in (("child", "child"), ("blocker", "blocker"), ("omit_layers", "omit_layers"), ("omit_keys", "omit_keys"), ("seed", "seed")))
     ctx.ob("SEED.deleg.bind", bind, "bind -> _bind_one(child, blocker, omit_layers, omit_keys, seed)", ok)
-    lc = [c for c in calls(bind_one, "clone") if isinstance(c.func, ast.Attribute) and unparse(c.func.value) == "layer"]
+    lc = [c for c in calls(bind_one, "clone") if isinstance(c.func, ast.Attribute) and eqv(c.func.value, "layer")]
     ok = len(lc) == 1 and unparse(kwarg(lc[0], "seed") or arg_or_kw(lc[0], 1, "seed")) == "seed" and unparse(arg_or_kw(lc[0], 0, "keys")) == "clone_keys" and unparse(arg_or_kw(lc[0], 2, "bind_to")) == "blocker_key"
     ctx.ob("SEED.deleg.layer", bind_one, "_bind_one -> layer.clone(keys=clone_keys, seed=seed, bind_to=blocker_key)", ok)
     cb = calls(clone, "bind")
@@ -131,7 +131,7 @@ def check(ctx):
     ok = len(sub) == 1
     if ok:
         loops = enclosing_loops(sub[0][0])
-        ok = bool(loops) and unparse(loops[0].iter) == "omit_layers" and unparse(loops[0].target) == "layer_name" and bool(find("layer = dsk.layers[layer_name]", loops[0]))
+        ok = bool(loops) and eqv(loops[0].iter, "omit_layers") and eqv(loops[0].target, "layer_name") and bool(find("layer = dsk.layers[layer_name]", loops[0]))
     ctx.ob("OMIT.keys.layers", bind_one, "for layer_name in omit_layers: clone_keys -= that layer's output keys", ok)
     # verbatim copy keeps name, deps and layer object
     ok = bool(find("new_deps[layer_name] = layer_deps", bind_one)) and bool(find("new_layers[layer_name] = dsk.layers[layer_name]", bind_one)) and bool(find("layers_to_copy_verbatim |= layer_deps", bind_one))
@@ -144,21 +144,21 @@ def check(ctx):
 
     # ---------------- BIND
     adds = find("new_dep.add(blocker_key)", bind_one)
-    ok = len(adds) == 1 and isinstance(getattr(enclosing_stmt(adds[0][0]), "_parent", None), ast.If) and unparse(enclosing_stmt(adds[0][0])._parent.test) == "is_bound" and enclosing_stmt(adds[0][0]) in enclosing_stmt(adds[0][0])._parent.body
+    ok = len(adds) == 1 and isinstance(getattr(enclosing_stmt(adds[0][0]), "_parent", None), ast.If) and eqv(enclosing_stmt(adds[0][0])._parent.test, "is_bound") and enclosing_stmt(adds[0][0]) in enclosing_stmt(adds[0][0])._parent.body
     ctx.ob("BIND.blocker.dep", bind_one, "a bound layer depends on the blocker layer", ok)
     ok = bool(find("blocker_key = blocker.key", bind_one)) and bool(find("new_layers.update(blocker_dsk.layers)", bind_one)) and bool(find("new_deps.update(blocker_dsk.dependencies)", bind_one))
     ctx.ob("BIND.blocker.graph", bind_one, "the blocker's layers and dependencies are part of the new graph", ok)
 
     # ---------------- RENAME
     rb = [c for c in calls(bind_one, "rebuild")]
-    ok = len(rb) == 1 and Pat("{prev_name: clone_key(prev_name, seed) for prev_name in prev_coll_names}").match(kwarg(rb[0], "rename")) is not None and unparse(rb[0].args[0]) == "HighLevelGraph(new_layers, new_deps)"
+    ok = len(rb) == 1 and Pat("{prev_name: clone_key(prev_name, seed) for prev_name in prev_coll_names}").match(kwarg(rb[0], "rename")) is not None and eqv(rb[0].args[0], "HighLevelGraph(new_layers, new_deps)")
     ctx.ob("RENAME.outputs", bind_one, "rebuild(HighLevelGraph(new_layers, new_deps), *args, rename={prev: clone_key(prev, seed)})", ok)
 
     # ---------------- LAYER.clone
     cv = next((n for n in ast.walk(lclone) if isinstance(n, ast.FunctionDef) and n.name == "clone_value"), None)
     if cv is None:
         raise AnchorMissing("Layer.clone.clone_value not found")
-    loop = next((n for n in walk_no_nested(lclone) if isinstance(n, ast.For) and unparse(n.iter) == "self.items()"), None)
+    loop = next((n for n in walk_no_nested(lclone) if isinstance(n, ast.For) and eqv(n.iter, "self.items()")), None)
     if loop is None:
         raise AnchorMissing("Layer.clone: `for key, value in self.items()` not found")
     ren = find("key = clone_key(key, seed)", loop)
@@ -167,7 +167,7 @@ def check(ctx):
     wrap = find("value = (chunks.bind, value, bind_to)", loop)
     bnd = find("bound = True", loop)
     store = find("dsk_new[key] = value", loop)
-    ok = len(ren) == 1 and any(unparse(e) == "key in keys" and pol for e, pol in cfg_of(lclone).facts(ren[0][0]))
+    ok = len(ren) == 1 and any(eqv(e, "key in keys") and pol for e, pol in cfg_of(lclone).facts(ren[0][0]))
     ctx.ob("LAYER.clone.rename", lclone, "a key in `keys` is stored under clone_key(key, seed)", ok)
     ok = len(reset) == 1 and len(cvc) == 1 and dominates(lclone, reset[0][0], cvc[0][0]) and enclosing_loops(reset[0][0])[:1] == [loop]
     ctx.ob("LAYER.clone.leaf-reset", lclone, "is_leaf = True is reset for every key before its value is rewritten", ok, "" if ok else "the leaf flag leaks from one key to the next: later leaves are not bound to the blocker")
@@ -186,8 +186,8 @@ def check(ctx):
     fl = find("is_leaf = False", cv)
     ok = ok and len(fl) == 1 and dominates(cv, fl[0][0], enclosing_stmt(rk[0][0]))
     ctx.ob("LAYER.clone.value.key", cv, "a replaced key clears the leaf flag and becomes clone_key(o, seed)", ok)
-    keep = [r for r in returns(cv) if unparse(r.value) == "o"]
-    ok = len(keep) >= 1 and any(any(unparse(e) == "o in keys" and pol is False for e, pol in cfg_of(cv).facts(r)) for r in keep)
+    keep = [r for r in returns(cv) if eqv(r.value, "o")]
+    ok = len(keep) >= 1 and any(any(eqv(e, "o in keys") and pol is False for e, pol in cfg_of(cv).facts(r)) for r in keep)
     ctx.ob("LAYER.clone.value.keep", cv, "anything that is not in `keys` is returned unchanged", ok)
     rec = {"tuple": "(o[0],) + tuple((clone_value(i) for i in o[1:]))", "list": "[clone_value(i) for i in o]", "dict": "{k: clone_value(v) for k, v in o.items()}"}
     got = {unparse(r.value) for r in returns(cv)}
@@ -205,12 +205,12 @@ def check(ctx):
         bad = {k: (kw.get(k), v) for k, v in want.items() if kw.get(k) != v}
         ok = not bad
         ctx.ob("BLOCKWISE.clone.fields", bclone, "the clone keeps every field, with output renamed and the rewritten task/indices/numblocks", ok, "" if ok else f"differs: {bad}")
-        ok = unparse(bw_ret[0].value.elts[1]) == "bind_to is not None and is_leaf"
+        ok = eqv(bw_ret[0].value.elts[1], "bind_to is not None and is_leaf")
         ctx.ob("BLOCKWISE.clone.bound-flag", bclone, "second result is (bind_to is not None and is_leaf)", ok)
     else:
         ctx.ob("BLOCKWISE.clone.fields", bclone, "returns (Blockwise(...), bound)", False)
-    iloop = next((n for n in walk_no_nested(bclone) if isinstance(n, ast.For) and unparse(n.iter) == "self.indices"), None)
-    nloop = next((n for n in walk_no_nested(bclone) if isinstance(n, ast.For) and unparse(n.iter) == "self.numblocks.items()" and not isinstance(getattr(n, "_parent", None), ast.If)), None)
+    iloop = next((n for n in walk_no_nested(bclone) if isinstance(n, ast.For) and eqv(n.iter, "self.indices")), None)
+    nloop = next((n for n in walk_no_nested(bclone) if isinstance(n, ast.For) and eqv(n.iter, "self.numblocks.items()") and not isinstance(getattr(n, "_parent", None), ast.If)), None)
     if iloop is None or nloop is None:
         raise AnchorMissing("Blockwise.clone: loops over self.indices / self.numblocks.items() not found")
     r1 = find("k = clone_key(k, seed)", iloop)
@@ -219,16 +219,16 @@ def check(ctx):
     ok = ok and bool(find("indices.append((k, idxv))", iloop)) and len(find("is_leaf = False", iloop)) == 2
     ctx.ob("BLOCKWISE.clone.indices", bclone, "index entries naming a cloned collection (plain or TaskRef) are renamed and clear the leaf flag; every entry is kept", ok)
     r3 = find("k = clone_key(k, seed)", nloop)
-    ok = len(r3) == 1 and any(unparse(e) == "k in names" and pol for e, pol in cfg_of(bclone).facts(r3[0][0])) and bool(find("numblocks[k] = nbv", nloop))
+    ok = len(r3) == 1 and any(eqv(e, "k in names") and pol for e, pol in cfg_of(bclone).facts(r3[0][0])) and bool(find("numblocks[k] = nbv", nloop))
     ctx.ob("BLOCKWISE.clone.numblocks", bclone, "numblocks entries of cloned collections are renamed with the same key function", ok)
     ok = bool(find("names = {get_name_from_key(k) for k in keys}", bclone))
     ctx.ob("BLOCKWISE.clone.names", bclone, "names = {get_name_from_key(k) for k in keys}", ok)
     ap = find("indices.append((TaskRef(bind_to), None))", bclone)
-    nt = [c for c in calls(bclone, "Task") if any(unparse(a) == "chunks.bind" for a in c.args)]
+    nt = [c for c in calls(bclone, "Task") if any(eqv(a, "chunks.bind") for a in c.args)]
     ok = len(ap) == 1 and len(nt) == 1
     if ok:
         c = nt[0]
-        ok = unparse(c.args[0]) == "clone_key(self.task.key, seed)" and unparse(c.args[1]) == "chunks.bind" and unparse(c.args[2]) == "self.task" and unparse(c.args[3]) == "TaskRef(blockwise_token(len(indices)))"
+        ok = eqv(c.args[0], "clone_key(self.task.key, seed)") and eqv(c.args[1], "chunks.bind") and eqv(c.args[2], "self.task") and eqv(c.args[3], "TaskRef(blockwise_token(len(indices)))")
         ok = ok and dominates(bclone, enclosing_stmt(c), ap[0][0]) and {("bind_to is None", False), ("is_leaf", True)} <= {(unparse(e), pol) for e, pol in cfg_of(bclone).facts(ap[0][0])}
     ctx.ob("BLOCKWISE.clone.bind-leaf", bclone, "leaf: task wrapped in chunks.bind with a placeholder for the new last index, then (TaskRef(bind_to), None) appended", ok, "" if ok else "the blocker is not wired into the leaf layer (or the placeholder index is taken after the append)")
     sub = find("newtask = self.task.substitute({}, key=clone_key(self.task.key, seed))", bclone)
@@ -239,12 +239,12 @@ def check(ctx):
     one = find("layer = {name: (chunks.checkpoint, collection.__dask_keys__())}", ck1) or find("layer: Graph = {name: (chunks.checkpoint, collection.__dask_keys__())}", ck1)
     ok = bool(one) and bool(find("HighLevelGraph.from_collections(name, layer, dependencies=(collection,))", ck1))
     ctx.ob("CHECKPOINT.cover.small", ck1, "0/1-key collections: one node taking all keys, depending on the collection", ok)
-    mloop = next((n for n in walk_no_nested(ck1) if isinstance(n, ast.For) and unparse(n.iter) == "get_collection_names(collection)"), None)
+    mloop = next((n for n in walk_no_nested(ck1) if isinstance(n, ast.For) and eqv(n.iter, "get_collection_names(collection)")), None)
     ok = mloop is not None and bool(find("map_keys += list(map_layer.get_output_keys())", mloop)) and bool(find("map_layer = _build_map_layer(chunks.checkpoint, prev_name, map_name, collection)", mloop)) and bool(find("map_names.add(map_name)", mloop))
     ok = ok and bool(find("HighLevelGraph.from_collections(map_name, map_layer, dependencies=(collection,))", mloop))
     ctx.ob("CHECKPOINT.cover.map", ck1, "for every collection name a map layer over all of its keys; all map keys are collected", ok)
     wl = next((n for n in walk_no_nested(ck1) if isinstance(n, ast.While)), None)
-    ok = wl is not None and unparse(wl.test) == "split_every and len(map_keys) > split_every"
+    ok = wl is not None and eqv(wl.test, "split_every and len(map_keys) > split_every")
     if ok:
         a = find("reduce_layer[k] = (chunks.checkpoint, map_keys[:split_every])", wl)
         b = find("map_keys = map_keys[split_every:] + [k]", wl)
@@ -260,7 +260,7 @@ def check(ctx):
     single = find("_checkpoint_one(collections[0], split_every)", ck)
     ok = bool(multi) and bool(single)
     if ok:
-        ok = any(unparse(e) == "len(collections) == 1" and pol for e, pol in cfg_of(ck).facts(enclosing_stmt(single[0][0])))
+        ok = any(eqv(e, "len(collections) == 1") and pol for e, pol in cfg_of(ck).facts(enclosing_stmt(single[0][0])))
     ctx.ob("CHECKPOINT.cover.collections", ck, "every unpacked collection gets its own checkpoint, joined by one node", ok)
     ok = bool(find("(collections, _) = unpack_collections(*collections)", ck)) or bool(find("collections, _ = unpack_collections(*collections)", ck))
     ctx.ob("CHECKPOINT.cover.unpack", ck, "nested structures are unpacked into their collections", ok)
@@ -276,7 +276,7 @@ def check(ctx):
     ok = len(ml) == 1 and isinstance(ml[0].args[0], ast.DictComp)
     if ok:
         dc = ml[0].args[0]
-        ok = unparse(dc.key) == "replace_name_in_key(k, {prev_name: new_name})" and unparse(dc.value) == "(func, k) + dep_keys" and unparse(dc.generators[0].iter) == "flatten(collection.__dask_keys__())" and [unparse(i) for i in dc.generators[0].ifs] == ["get_name_from_key(k) == prev_name"]
+        ok = eqv(dc.key, "replace_name_in_key(k, {prev_name: new_name})") and eqv(dc.value, "(func, k) + dep_keys") and eqv(dc.generators[0].iter, "flatten(collection.__dask_keys__())") and [unparse(i) for i in dc.generators[0].ifs] == ["get_name_from_key(k) == prev_name"]
         ok = ok and bool(find("dep_keys = tuple((d.key for d in dependencies))", bml))
     ctx.ob("MAP.materialized", bml, "{renamed key: (func, k) + dep_keys for every key of that name}", ok)
     dk = find("{'_deps': List(*[TaskRef(d.key) for d in dependencies])}", bml)
@@ -290,7 +290,7 @@ def check(ctx):
         ok = bool(find("_build_map_layer(chunks.bind, prev_name, new_name, coll, dependencies=(blocker,))", blk)) and bool(find("HighLevelGraph.from_collections(new_name, layer, dependencies=(coll, blocker))", blk))
         ok = ok and bool(find("rename[prev_name] = new_name", blk)) and bool(find("rebuild(dsk, *args, rename=rename)", blk))
         lp = next((n for n in walk_no_nested(blk) if isinstance(n, ast.For)), None)
-        ok = ok and lp is not None and unparse(lp.iter) == "get_collection_names(coll)"
+        ok = ok and lp is not None and eqv(lp.iter, "get_collection_names(coll)")
     if ok:
         ok = bool(find("tok = tokenize(coll, blocker)", blk)) and bool(find("new_name = 'wait_on-' + tokenize(prev_name, tok)", blk))
     ctx.ob("WAIT.blocker", wait_on, "wait_on: one checkpoint of all inputs; every chunk of every name is bound to it and renamed", ok)
@@ -303,14 +303,14 @@ def check(ctx):
     else:
         subs = find("subs = {k: clone_key(k, seed) for k in node.dependencies if k in keys}", cn)
         lf = find("is_leaf = False", cn)
-        ok = len(subs) == 1 and len(lf) == 1 and any(unparse(e) == "subs" and pol for e, pol in cfg_of(cn).facts(lf[0][0]))
+        ok = len(subs) == 1 and len(lf) == 1 and any(eqv(e, "subs") and pol for e, pol in cfg_of(cn).facts(lf[0][0]))
         rets = {unparse(r.value) for r in returns(cn)}
         ok = ok and rets == {"Alias(key, subs.get(node.target, node.target))", "node.substitute(subs, key=key)"} and all(dominates(cn, subs[0][0], r) for r in returns(cn))
         ctx.ob("LAYER.clone.graphnode", cn, "clone_node: every dependency that is in `keys` is redirected to clone_key(k, seed) (clearing the leaf flag) and the node gets the new key", ok)
         top = find("value = clone_node(value, key)", loop)
-        ok = len(top) == 1 and len(ren) == 1 and len(reset) == 1 and any(unparse(e) == "isinstance(value, GraphNode)" and pol for e, pol in cfg_of(lclone).facts(top[0][0])) and dominates(lclone, ren[0][0], top[0][0]) and dominates(lclone, reset[0][0], top[0][0])
+        ok = len(top) == 1 and len(ren) == 1 and len(reset) == 1 and any(eqv(e, "isinstance(value, GraphNode)") and pol for e, pol in cfg_of(lclone).facts(top[0][0])) and dominates(lclone, ren[0][0], top[0][0]) and dominates(lclone, reset[0][0], top[0][0])
         ctx.ob("LAYER.clone.graphnode.top", lclone, "a GraphNode value of a replaced key is rewritten by clone_node under the NEW key", ok)
-        ok = any(unparse(r.value) == "clone_node(o, o.key)" and any(unparse(e) == "isinstance(o, GraphNode)" and pol for e, pol in cfg_of(cv).facts(r)) for r in returns(cv))
+        ok = any(eqv(r.value, "clone_node(o, o.key)") and any(eqv(e, "isinstance(o, GraphNode)") and pol for e, pol in cfg_of(cv).facts(r)) for r in returns(cv))
         ctx.ob("LAYER.clone.graphnode.nested", cv, "a GraphNode nested in a legacy value is rewritten in place (own key kept)", ok)
         wrap2 = find("value = Task(key, chunks.bind, value, TaskRef(bind_to))", loop)
         ok = len(wrap2) == 1 and len(top) == 1 and dominates(lclone, top[0][0], wrap2[0][0])
